@@ -350,8 +350,9 @@ DagLoop(S, t) ==
              IN  IF ~(Ready(S, D, n) \/ (D.oneof /\ SubErr(S, D)))
                  THEN BlockCond(SetPc(S, t, "wready"), t, n)
                  ELSE IF D.oneof /\ SubErr(S, D)
-                      THEN (* early exit of a failed one-of subgraph: stop local tasks, unlock descendants and dest *)
-                           Continue(Ret(Notify(NotifyDesc(CancelSeq(S, f.locals), n), D.dest), t, <<"none">>), t)
+                      THEN (* early exit of a failed one-of subgraph: unlock descendants and dest; the nodes already
+                              started are left running (they may be shared with the next candidate) *)
+                           Continue(Ret(Notify(NotifyDesc(S, n), D.dest), t, <<"none">>), t)
                       ELSE IF ~D.oneof /\ ~A(n).is_head /\ PredErr(S, D, n) # {}
                            THEN (* an error stored as a dependency's result is the error of the run (fix 3e75aa7) *)
                                 LET p == CHOOSE q \in PredErr(S, D, n) : TRUE
